@@ -244,6 +244,91 @@ def run_case(args):
     return res
 
 
+def overload_case(args):
+    """one name declared twice with different sorts at different moments of an incremental script: everything printed after
+    the second declaration must disambiguate ((as a Int)) and read back, also what mentions a symbol that was printed before"""
+    idx, seed, binary = args
+    rng = random.Random(f"c17-ovl-{seed}-{idx}")
+    logic = ["QF_LIA", "QF_LRA"][idx % 2]
+    S = "Int" if logic == "QF_LIA" else "Real"
+    nm = rng.choice(["a", "v", "|a b|", "x1", "|c;d|"])
+    mode = ["core", "value", "dump"][idx % 3]
+    res = {"idx": f"ovl{idx}", "logic": logic, "mode": "overload-" + mode, "problems": [], "objects": 0, "script": ""}
+    opts = {"core": [":produce-unsat-cores true", ":print-cores-full true"], "value": [":produce-models true"], "dump": [":produce-models true"]}[mode]
+    tmpd = None
+    if mode == "dump":
+        tmpd = tempfile.mkdtemp(prefix="c17-", dir=str(common.WORK))
+        opts += [":dump-query true", f":dump-query-name \"{tmpd}/q\""]
+    k = rng.randint(1, 6)
+    decl1, decl2 = f"(declare-fun {nm} () {S})", f"(declare-fun {nm} () Bool)"
+    if rng.random() < 0.3:
+        decl1, decl2 = decl2, decl1                     # the Boolean one first
+    num, boo = f"(as {nm} {S})", f"(as {nm} Bool)"
+    first_num = decl1.endswith(f"{S})")
+    lines = ["(set-option :print-success true)"] + [f"(set-option {o})" for o in opts] + [f"(set-logic {logic})", decl1, f"(declare-fun b () {S})", "(declare-fun c () Bool)"]
+    if rng.random() < 0.8:                              # the first symbol is printed once while it is still unambiguous
+        lines += ["(push 1)"]
+        if first_num:
+            lines += [f"(assert (> {nm} b))", f"(assert (< {nm} b))" if mode == "core" else f"(assert (< b {k}))"]
+        else:
+            lines += [f"(assert (or {nm} c))", f"(assert (not {nm}))", "(assert (not c))" if mode == "core" else "(assert (> b 0))"]
+        lines += ["(check-sat)", "(get-unsat-core)" if mode == "core" else f"(get-value ({nm} b))", "(pop 1)"]
+    lines.append(decl2)
+    second = [f"(assert (or {boo} (> b {k})))", f"(assert (> {num} b))"]
+    second.append(f"(assert (< {num} b))" if mode == "core" else f"(assert (=> {boo} (< b {k + 3})))")
+    rng.shuffle(second)
+    lines += second + ["(check-sat)"]
+    lines.append("(get-unsat-core)" if mode == "core" else f"(get-value ({num} {boo} (+ {num} b) (and {boo} c)))")
+    script = "\n".join(lines) + "\n"
+    res["script"] = script
+    out, rc = opensmt_answers(binary, script)
+    if rc == "timeout":
+        return res
+    if rc not in (0, 1):
+        res["problems"].append({"what": f"opensmt terminated abnormally (status {rc})"}); return res
+    raws = split_top(out)
+    if len(raws) != len(lines):
+        res["problems"].append({"what": f"{len(lines)} commands, {len(raws)} responses", "stdout": out[-400:]}); return res
+    errs = [r[:160] for r, l in zip(raws, lines) if r.lstrip().startswith("(error") and not l.startswith("(get-")]
+    if errs:
+        res["problems"].append({"what": f"a legal command over a name declared with two sorts is rejected: {errs[0]}"}); return res
+    header = [f"(set-logic {logic})", decl1, f"(declare-fun b () {S})", "(declare-fun c () Bool)", decl2]
+    ci = len(lines) - 2
+    answer = raws[ci].strip()
+    if mode == "core" and answer == "unsat" and not raws[-1].lstrip().startswith("(error"):
+        s2 = "\n".join(["(set-option :print-success true)"] + header + [f"(assert {x})" for x in inner(raws[-1])] + ["(check-sat)"]) + "\n"
+        o2, rc2 = opensmt_answers(binary, s2)
+        res["objects"] += 1
+        if "(error" in o2 or runner.answers(o2) != ["unsat"]:
+            bad = [l for l in o2.split("\n") if "(error" in l][:1] or runner.answers(o2)
+            res["problems"].append({"what": f"the printed full core read back by opensmt is not unsatisfiable: {bad}", "readback_script": s2}); return res
+    if mode in ("value", "dump") and answer == "sat" and not raws[-1].lstrip().startswith("(error"):
+        eqs = []
+        for pair in inner(raws[-1]):
+            tv = inner(pair)
+            if len(tv) == 2:
+                eqs.append(f"(assert (= {tv[0]} {tv[1]}))")
+        s2 = "\n".join(["(set-option :print-success true)"] + header + second + eqs + ["(check-sat)"]) + "\n"
+        o2, rc2 = opensmt_answers(binary, s2)
+        res["objects"] += 1
+        if "(error" in o2 or runner.answers(o2) != ["sat"] or len(eqs) != 4:
+            bad = [l for l in o2.split("\n") if "(error" in l][:1] or runner.answers(o2)
+            res["problems"].append({"what": f"the printed values (terms over a name declared with two sorts) do not read back as values of the assertions: {bad}",
+                                    "readback_script": s2}); return res
+    if mode == "dump" and tmpd:
+        for f in sorted(os.listdir(tmpd)):
+            q = open(os.path.join(tmpd, f)).read()
+            o2, rc2 = opensmt_answers(binary, q)
+            res["objects"] += 1
+            if "(error" in o2 or not runner.answers(o2):
+                res["problems"].append({"what": f"the dumped query over a name declared with two sorts cannot be read back by opensmt: "
+                                                f"{[l for l in o2.split(chr(10)) if '(error' in l][:1]}", "dumped": q[-1500:]}); break
+        for f in os.listdir(tmpd):
+            os.unlink(os.path.join(tmpd, f))
+        os.rmdir(tmpd)
+    return res
+
+
 def names_mirror(seed, n):
     """Logic::protectName against its Lean mirror on generated names (simple, with quotable characters, number-like, keywords)"""
     import subprocess
@@ -288,6 +373,7 @@ def run(tier):
     n = 240 if tier == "quick" else 5000
     with mp.Pool(min(common.JOBS, 14)) as pool:
         results = pool.map(run_case, [(i, chk.seed, binary) for i in range(n)], chunksize=2)
+        results += pool.map(overload_case, [(i, chk.seed, binary) for i in range(60 if tier == "quick" else 1200)], chunksize=2)
     nn, drift = names_mirror(chk.seed, 3000 if tier == "quick" else 60000)
     chk.case(key=("names", nn), sample={"names_compared_with_the_mirror": nn})
     chk.obligation(not drift)
